@@ -724,7 +724,7 @@ MessageReceivedFromGateway(const MessageRef & msgRef, void * userData)
                }
                else if ((fn == PR_NAME_KEYS)||(fn == PR_NAME_FILTERS))
                {
-                  (void) msg.MoveName(fn, _defaultMessageRouteMessage);
+                  (void) msg.CopyName(fn, _defaultMessageRouteMessage);
                   updateDefaultMessageRoute = true;
                }
                else if (fn == PR_NAME_SUBSCRIBE_QUIETLY)
